@@ -356,7 +356,7 @@ def run_case_a(program, specs, res, kind="key", mod=None, operands=None):
     keep = {id(a) for a in args} | {id(x) for x in sent}
     if not _read_results(run.stack, keep):
         _skip(res, "watchdog_reading_results")
-        return "completed"
+        return "watchdog"
     changes = _compare_holders(holders, res)
     if changes is None:
         _skip(res, "watchdog_comparing")
@@ -544,7 +544,7 @@ def run_case_b(vspec, mode, copy_idx, groups, res, shrink=True):
     keep = {id(h[1]) for h in holders}
     if not _read_results(run.stack, keep):
         _skip(res, "watchdog_reading_results")
-        return "completed"
+        return "watchdog"
     changes = _compare_holders(holders, res)
     if changes is None:
         _skip(res, "watchdog_comparing")
@@ -703,7 +703,7 @@ def run_case_p(producer, copy_idx, groups, res):
     keep = {id(h[1]) for h in holders}
     if not _read_results(run.stack, keep):
         _skip(res, "watchdog_reading_results")
-        return "completed"
+        return "watchdog"
     bad = None
     try:
         with watchdog(3.0):
@@ -905,8 +905,8 @@ def run_unit(unit):
             for pos in range(arity):
                 for deg in DEGENERATE:
                     for rest in itertools.product(typ, repeat=arity - 1):
-                        if dogs >= 6:
-                            break
+                        if dogs >= 4:
+                            break  # an element that keeps running into the watchdog (or whose results take seconds to read)
                         specs = list(rest[:pos]) + [deg] + list(rest[pos:])
                         before = res["evals"]
                         why = run_case_a(key, specs, res)
